@@ -905,6 +905,30 @@ def statevector(c):
     return np.asarray(NumpyBackend().execute_circuit(c).state())
 
 
+PREPS = [[], ["H"], ["H", "S"], ["H", "S:even"]]
+
+
+def gate_defect(b, n, mk):
+    """max over a few stabiliser preparations of the defect between the Clifford result and the state vector
+    for the one-gate circuit prep ; mk().  A refusal by exception counts as defect 0 (the circuit is refused)."""
+    from qibo import Circuit, gates
+    worst = 0.0
+    for prep in PREPS:
+        def circ():
+            c = Circuit(n)
+            for p_ in prep:
+                nm, _, sel = p_.partition(":")
+                for q in range(n):
+                    if sel == "even" and q % 2:
+                        continue
+                    c.add(getattr(gates, nm)(q))
+            c.add(mk())
+            return c
+        T, _ = real_tableau(b, circ())
+        worst = max(worst, stabiliser_defect(T, n, statevector(circ())))
+    return worst
+
+
 def sec_flag_witnesses(run):
     """replay of the refuted flag statements on the real code"""
     from qibo import Circuit, gates
@@ -915,11 +939,7 @@ def sec_flag_witnesses(run):
     for cls, theta in (("RX", 1.0), ("RY", 1.0), ("RZ", 1.0), ("RX", 1.0 + np.pi / 2)):
         g = getattr(gates, cls)(0, theta)
         if g.clifford:
-            c = Circuit(1)
-            c.add(gates.H(0))
-            c.add(getattr(gates, cls)(0, theta))
-            T, _ = real_tableau(b, c)
-            d = stabiliser_defect(T, 1, statevector(c))
+            d = gate_defect(b, 1, lambda: getattr(gates, cls)(0, theta))
             if d > 1e-6:
                 fired = True
                 lab = "1.0" if theta == 1.0 else repr(theta)
@@ -933,15 +953,9 @@ def sec_flag_witnesses(run):
     for cls in ROT2:
         g = getattr(gates, cls)(0, 1, np.pi / 2)
         if g.clifford:
-            c = Circuit(2)
-            c.add(gates.H(0))
-            c.add(gates.H(1))
-            c.add(gates.S(1))
-            c.add(getattr(gates, cls)(0, 1, np.pi / 2))
             try:
-                T, _ = real_tableau(b, c)
-                d = stabiliser_defect(T, 2, statevector(c))
-            except Exception as e:   # a crash is a refusal
+                d = gate_defect(b, 2, lambda: getattr(gates, cls)(0, 1, np.pi / 2))
+            except (AttributeError, TypeError):   # a crash is a refusal
                 d = 0.0
             if d > 1e-6:
                 fired = True
@@ -1038,25 +1052,18 @@ def sec_flags(run):
         if g is None or not fl_:
             continue
         n = nc + nq
-        def circ():
-            c = Circuit(n)
-            for q in range(n):
-                c.add(gates.H(q))
-            for q in range(0, n, 2):
-                c.add(gates.S(q))
-            return c
-        c = circ()
         qs = list(range(nc, nc + nq))
-        gg_ = [m for (l2, m, _) in catalogue_gates() if l2 == lab][0](qs)
-        if nc:
-            gg_ = gg_.controlled_by(*range(nc))
-        c.add(gg_)
+        mk0 = [m for (l2, m, _) in catalogue_gates() if l2 == lab][0]
+
+        def mkg():
+            g_ = mk0(qs)
+            return g_.controlled_by(*range(nc)) if nc else g_
+        gg_ = mkg()
         try:
-            T, _ = real_tableau(b, c)
+            d = gate_defect(b, n, mkg)
         except (AttributeError, TypeError) as e:
             run.notes.setdefault("accepted_but_crash", []).append(f"{lab} with {nc} controls: flagged Clifford, engine raises {type(e).__name__}")
             continue
-        d = stabiliser_defect(T, n, statevector(c))
         run.case(["flag_semantics", lab, nc, d > 1e-6])
         if d > 1e-6:
             name = type(gg_).__name__
@@ -1620,6 +1627,7 @@ def main(run):
     sec_stim(run, rng)
     sec_to_circuit(run, rng)
     run.notes.pop("reported_keys", None)
+    run.axioms.discard("Axioms")
     return run.finish(level="proof", rule=RULE_TEXT)
 
 
